@@ -23,8 +23,10 @@ REQUIRED_EVENTS = ["cli_runs_compared"]
 MATCHED = re.compile(r" - INFO - Matched address: (.*)$")
 
 
-def run_cli(ws, args, cwd):
+def run_cli(ws, args, cwd, path=None):
     env = harness.child_env()
+    if path is not None:
+        env["PATH"] = path
     try:
         return subprocess.run([harness.PY, "-m", "jasm.main"] + args, cwd=cwd, env=env, capture_output=True, text=True, timeout=180)
     except subprocess.TimeoutExpired:
@@ -104,8 +106,18 @@ def arg_cases(ctx, ws, cwd, rule_path, asm, elfp):
         ("malformed-rule", ["-p", ws.write("bad.yaml", "pattern: [unclosed\n"), "-s", asm]),
         ("not-an-object", ["-p", rule_path, "-b", asm]),
     ]
-    for name, args in table:
-        p = run_cli(ws, args, cwd)
+    empty = ws.path("emptybin")
+    os.makedirs(empty, exist_ok=True)
+    fake = ws.path("fakebin")
+    os.makedirs(fake, exist_ok=True)
+    with open(os.path.join(fake, "objdump"), "w") as f:
+        f.write("#!/bin/sh\necho 'objdump: file format not recognized' >&2\nexit 1\n")
+    os.chmod(os.path.join(fake, "objdump"), 0o755)
+    table += [("objdump-not-on-PATH", ["-p", rule_path, "-b", elfp], empty),
+              ("objdump-exits-1", ["-p", rule_path, "-b", elfp], fake + os.pathsep + "/usr/bin:/bin")]
+    for entry in table:
+        name, args = entry[0], entry[1]
+        p = run_cli(ws, args, cwd, path=entry[2] if len(entry) > 2 else None)
         ctx.ran()
         if p is None:
             ctx.inconc("CLI run timed out")
